@@ -576,4 +576,4 @@ func TestEnum(t *testing.T) {
 	})
 }
 
-func TestReplay(t *testing.T) { core.Replay(t, dictCheck, augCheck) }
+func TestReplay(t *testing.T) { core.Replay(t, dictCheck, augCheck, inlineCheck) }
